@@ -7,16 +7,17 @@ sub-daily steps with an expanding evaporation layer).
 Mirrors the Python branch by branch, including
   * the stage-1/stage-2 extraction loops that pre-increment `comp` and therefore may visit index
     `comp_sto` (one compartment *beyond* the counted ones, where `factor ≤ 0`),
-  * the clamp `AvW < 0 → 0` present in stage 1 and absent in stage 2,
+  * the clamp `AvW < 0 → 0` in stage 1 and (since repo fix 9c2fed8) in stage 2,
   * `Kr` clamped at 1 but not at 0,
   * `tAdj` unbound when `CalendarType ∉ {1,2}` in the growing season (`E:unbound`),
   * `IndexError` when a loop indexes past the profile (`E:index`).
 `EvapTimeSteps = 0` is answered with `E:zerodiv` (what Python does for Python-float `ToExtract`;
 for numpy scalars it would produce `inf` and continue — not modelled, never generated).
 
-Ghost outputs: `negTake` (some stage-2 extraction step had a negative available water `AvW < 0`
-and therefore *added* water to a compartment and decreased `EsAct`), `branch` (bit mask of the
-branches taken, for coverage statistics).
+Ghost outputs: `negTake` (some extraction step took a negative amount — possible in stage 2 before
+repo fix 9c2fed8, now provably `false`, lemma `soilEvap_negTake_false`; kept so that the reply format
+is stable and the harness keeps checking it), `branch` (bit mask of the branches taken, for coverage
+statistics).
 -/
 
 namespace Aqua
@@ -185,13 +186,14 @@ structure Take (α : Type) where
   taken : α     -- added to `EsAct`, removed from `W`, `ToExtract`
   dem : α       -- remaining demand
 
-/-- body of the extraction loops; `clamp` = stage 1 (`if AvW < 0: AvW = 0`). -/
-def takeCell (clamp : Bool) (z : α) (x : Cell α) (dem : α) : Take α :=
+/-- body of the extraction loops of stage 1 and stage 2 (both clamp `if AvW < 0: AvW = 0`;
+the stage-2 clamp was added by repo fix 9c2fed8). -/
+def takeCell (z : α) (x : Cell α) (dem : α) : Take α :=
   let factor := evapFactor z x.c
   let wdry := 1000 * x.c.thDry * x.c.dz
   let w := 1000 * x.th * x.c.dz
   let avw0 := (w - wdry) * factor
-  let avw := if clamp = true ∧ avw0 < 0 then 0 else avw0
+  let avw := if avw0 < 0 then 0 else avw0
   if dem ≤ avw then
     { cell := { x with th := (w - dem) / (1000 * x.c.dz) }, taken := dem, dem := 0 }
   else
@@ -201,11 +203,11 @@ structure ExtAcc (α : Type) where
   dem : α       -- ExtractPotStg1 / ToExtractStg2
   esAct : α
   toExt : α     -- ToExtract
-  neg : Bool    -- ghost: some step took a negative amount
+  neg : Bool    -- ghost: some step took a negative amount (provably never, `extractLoop_noNeg`)
 
 /-- `while (dem > 0) and (comp < comp_sto): comp += 1; …` — `n` = remaining admissible iterations
 (`comp_sto + 1` at entry because `comp` starts at −1 and is incremented before use). -/
-def extractLoop (clamp : Bool) (z : α) :
+def extractLoop (z : α) :
     Nat → List (Cell α) → ExtAcc α → Except String (List (Cell α) × ExtAcc α)
   | 0, cs, a => .ok (cs, a)
   | n+1, cs, a =>
@@ -213,8 +215,8 @@ def extractLoop (clamp : Bool) (z : α) :
       match cs with
       | [] => .error "E:index"
       | x :: xs =>
-        let t := takeCell clamp z x a.dem
-        match extractLoop clamp z n xs
+        let t := takeCell z x a.dem
+        match extractLoop z n xs
             { dem := t.dem, esAct := a.esAct + t.taken, toExt := a.toExt - t.taken,
               neg := a.neg || decide (t.taken < 0) } with
         | .error e => .error e
@@ -235,7 +237,7 @@ def evapStage1 (F : Fn α) (P : EvapParams α) (cells : List (Cell α)) (s : Eva
   let toExt := esPot - esAct
   let e1 := pmin toExt s.wSurf
   if 0 < e1 then
-    match extractLoop true P.zMin (countBelow P.zMin cells + 1 + 1) cells
+    match extractLoop P.zMin (countBelow P.zMin cells + 1 + 1) cells
         { dem := e1, esAct := esAct, toExt := toExt, neg := false } with
     | .error e => .error e
     | .ok (cells', a) =>
@@ -304,7 +306,7 @@ def stage2Step (F : Fn α) (P : EvapParams α) (wStage2 edt : α) (st : SubSt α
     | .error e => .error e
     | .ok (evapZ, wrel) =>
       let dem := krOf F P wrel * edt
-      match extractLoop false evapZ (countBelow evapZ st.cells + 1 + 1) st.cells
+      match extractLoop evapZ (countBelow evapZ st.cells + 1 + 1) st.cells
           { dem := dem, esAct := st.esAct, toExt := st.toExt, neg := st.neg } with
       | .error e => .error e
       | .ok (cells', a) =>
